@@ -1,12 +1,12 @@
 """C07 plan (see lib/plan.py for the format)."""
-from plan import R, D, stages
+from plan import R, D, T, stages
 import fuzzstage
 
 PLAN = dict(
     extra={"thorough": [fuzzstage.diff_stage(3, "C07")]},
     **stages(
-        quick=[(R, "quick", 16), (D, "small", 16)],
-        thorough=[(R, "thorough", 16), (D, "quick", 16)],
+        quick=[(R, "quick", 16), (D, "small", 16), (T, "small", 16)],
+        thorough=[(R, "thorough", 16), (D, "quick", 16), (T, "quick", 16)],
     ),
     rule=("a case is one model entry M (all eleven required variables, each optional one with probability 1/2, "
           "every fourth model all 23) together with 5 independent call histories that realise M on 5 fresh "
